@@ -220,19 +220,34 @@ class Transaction:
         return {"entries": len(self.data)}
 
 
+_PAST_END = object()
+
+
 class Cursor:
-    """Position is remembered as the current key (or None = unpositioned)."""
+    """py-lmdb cursor semantics over liblmdb's, as validated by nrmc/lmdbconf.py against the real library:
+    * `pos` is the internal position: None (uninitialised), _PAST_END (after a set_range that found nothing) or a key;
+    * `valid` says whether key() shows it: a next()/prev() that runs off the end leaves the internal position where it was
+      (so a following prev() from there goes to the key BEFORE the last one) but key() returns b"";
+    * a key deleted under the cursor (same write transaction) leaves the cursor on its successor: next() returns the
+      successor, prev() the predecessor of the deleted key, key() the successor (or b"" if there is none)."""
 
     def __init__(self, txn):
         self.txn = txn
-        self.cur = None
+        self.pos = None
+        self.valid = False
 
     @property
     def _d(self):
         return self.txn.data
 
+    # kept for callers that look at .cur
+    @property
+    def cur(self):
+        return self.pos if (self.valid and self.pos is not _PAST_END) else None
+
     def close(self):
-        self.cur = None
+        self.pos = None
+        self.valid = False
 
     def __enter__(self):
         return self
@@ -240,15 +255,27 @@ class Cursor:
     def __exit__(self, *a):
         self.close()
 
+    def _current(self):
+        """the key the cursor shows (after a deletion under it: the successor), or None"""
+        if not self.valid or self.pos is None or self.pos is _PAST_END:
+            return None
+        d = self._d
+        if self.pos in d:
+            return self.pos
+        i = d.bisect_right(self.pos)
+        if i >= len(d):
+            self.valid = False
+            return None
+        self.pos = d.keys()[i]
+        return self.pos
+
     def key(self):
-        if self.cur is None:
-            return self.txn._out(b"")
-        return self.txn._out(self.cur)
+        k = self._current()
+        return self.txn._out(k if k is not None else b"")
 
     def value(self):
-        if self.cur is None:
-            return self.txn._out(b"")
-        return self.txn._out(self._d.get(self.cur, b""))
+        k = self._current()
+        return self.txn._out(self._d.get(k, b"") if k is not None else b"")
 
     def item(self):
         return self.key(), self.value()
@@ -256,17 +283,17 @@ class Cursor:
     def first(self):
         d = self._d
         if not d:
-            self.cur = None
+            self.pos, self.valid = None, False
             return False
-        self.cur = d.keys()[0]
+        self.pos, self.valid = d.keys()[0], True
         return True
 
     def last(self):
         d = self._d
         if not d:
-            self.cur = None
+            self.pos, self.valid = None, False
             return False
-        self.cur = d.keys()[-1]
+        self.pos, self.valid = d.keys()[-1], True
         return True
 
     def set_range(self, key):
@@ -276,61 +303,63 @@ class Cursor:
             return self.first()
         i = d.bisect_left(key)
         if i >= len(d):
-            self.cur = None
+            self.pos, self.valid = (_PAST_END if d else None), False
             return False
-        self.cur = d.keys()[i]
+        self.pos, self.valid = d.keys()[i], True
         return True
 
     def set_key(self, key):
         key = bytes(key)
         if key in self._d:
-            self.cur = key
+            self.pos, self.valid = key, True
             return True
-        self.cur = None
+        self.pos, self.valid = None, False
         return False
 
     def next(self):
         d = self._d
-        if self.cur is None:
+        if self.pos is None:
             return self.first()
-        i = d.bisect_right(self.cur)
-        if i >= len(d):
-            self.cur = None
+        if self.pos is _PAST_END:
+            self.valid = False
             return False
-        self.cur = d.keys()[i]
+        i = d.bisect_right(self.pos)
+        if i >= len(d):
+            self.valid = False
+            return False
+        self.pos, self.valid = d.keys()[i], True
         return True
 
     def prev(self):
         d = self._d
-        if self.cur is None:
-            # liblmdb: MDB_PREV on an uninitialised cursor positions at the last item
+        if self.pos is None or self.pos is _PAST_END:
+            # liblmdb: MDB_PREV on an uninitialised cursor, or after a set_range that ran past the end, goes to the last item
             return self.last()
-        i = d.bisect_left(self.cur) - 1
+        i = d.bisect_left(self.pos) - 1
         if i < 0:
-            self.cur = None
+            self.valid = False
             return False
-        self.cur = d.keys()[i]
+        self.pos, self.valid = d.keys()[i], True
         return True
 
     def _iter(self, step, keys, values):
-        while self.cur is not None:
-            if self.cur in self._d:
-                if keys and values:
-                    yield self.item()
-                elif keys:
-                    yield self.key()
-                else:
-                    yield self.value()
+        while self._current() is not None:
+            if keys and values:
+                yield self.item()
+            elif keys:
+                yield self.key()
+            else:
+                yield self.value()
             if not step():
                 break
 
     def iternext(self, keys=True, values=True):
-        if self.cur is None:
+        if self._current() is None:
             self.first()
         return self._iter(self.next, keys, values)
 
     def iterprev(self, keys=True, values=True):
-        if self.cur is None:
+        if self._current() is None:
             self.last()
         return self._iter(self.prev, keys, values)
 
@@ -338,10 +367,8 @@ class Cursor:
         return self.iternext()
 
     def delete(self, dupdata=False):
-        if self.cur is None or self.cur not in self._d:
+        k = self._current()
+        if k is None:
             return False
-        k = self.cur
         self.txn.delete(k)
-        i = self._d.bisect_left(k)
-        self.cur = self._d.keys()[i] if i < len(self._d) else None
         return True
